@@ -46,8 +46,10 @@ func Requests(fc uint8, full bool) []spec.Req {
 		out = append(out, spec.Req{FC: 6, Addr: 1, Value: 3})
 	case 15:
 		out = append(out, spec.Req{FC: 15, Addr: 0x13, Qty: 10, Data: []byte{0xCD, 0x01}})
+		out = append(out, spec.Req{FC: 15, Addr: 0, Qty: 1968, Data: bigPattern(246)}) // the largest request frames: 259 / 255 bytes
 	case 16:
 		out = append(out, spec.Req{FC: 16, Addr: 1, Qty: 2, Data: []byte{0, 10, 1, 2}})
+		out = append(out, spec.Req{FC: 16, Addr: 100, Qty: 123, Data: bigPattern(246)})
 	case 17:
 		out = append(out, spec.Req{FC: 17})
 	case 23:
@@ -59,6 +61,14 @@ func Requests(fc uint8, full bool) []spec.Req {
 		out[i].Unit, out[i].TID = 0x11, 0x0102
 	}
 	return out
+}
+
+func bigPattern(n int) []byte {
+	b := make([]byte, n)
+	for i := range b {
+		b[i] = byte(i*7 + 1)
+	}
+	return b
 }
 
 // Scenarios builds the normal-reply scenarios of one client kind. FC17 gets several device identities.
